@@ -120,6 +120,8 @@ package mapping
 //@   requires v != nil
 //@   ensures implies(opts == nil || !opts.Inherit, typeIs(result, simpleValuer))
 //@   ensures implies(opts != nil && opts.Inherit, typeIs(result, recursiveValuer))
+//@   modifies nothing
+//@   allocates
 
 // ---------------------------------------------------------------------------------------------
 // C08 primitive paths: validate-before-set. Every sink that writes the target is reached only on paths on which the
@@ -249,3 +251,35 @@ package mapping
 //@   ensures implies(result == nil && vp.value == nil, opts != nil && opts.Optional)
 //@   call processFieldNotFromString#*: assert arg_opts == opts && arg_vp.value == vp.value
 //@   call processNamedFieldWithValueFromString#*: assert arg_opts == opts && arg_mapValue == vp.value
+
+// the per-field dispatcher: the option set parsed from the field's tag is the one every path below works with; a field
+// whose key is missing in the input is accepted only through processNamedFieldWithoutValue (required-field rule), a field
+// with a value only through processNamedFieldWithValue
+//@ func join
+//@   trusted
+//@   modifies nothing
+//@   allocates
+//@ func getValue
+//@   trusted
+//@   modifies nothing
+//@   allocates
+//@ func (u *Unmarshaler) processNamedField
+//@   property C08
+//@   flag callbacks_noheap nopanic:canonicalKey
+//@   requires m != nil
+//@   ghost at entry: looked = false
+//@   ghost at entry: hv = false
+//@   ghost at entry: wres = false
+//@   ghost at entry: vres = false
+//@   ghost at after parseOptionsWithContext#0: po = ret1
+//@   ghost at after getValue#0: hv = ret1
+//@   ghost at after getValue#0: looked = true
+//@   ghost at after processNamedFieldWithoutValue#0: wres = (ret == nil)
+//@   ghost at after processNamedFieldWithoutValue#1: wres = (ret == nil)
+//@   ghost at after processNamedFieldWithValue#0: vres = (ret == nil)
+//@   call createValuer#*: assert arg_opts == po && arg_v == m
+//@   call processNamedFieldWithoutValue#*: assert arg_opts == po
+//@   call processFieldWithEnvValue#*: assert arg_opts == po && po != nil && len(po.EnvVar) > 0 && len(arg_envVal) > 0
+//@   call processNamedFieldWithValue#*: assert arg_opts == po && hv && !u.opts.fillDefault
+//@   ensures implies(result == nil && looked && !hv, wres)
+//@   ensures implies(result == nil && looked && hv && !old(u.opts.fillDefault), vres)
